@@ -5,13 +5,16 @@
        topic (C15), so messages of one component are never seen by another's handler;
    (2) frame: updating a device touches the state of that device only, and a component outside the
        extent of a tick (not a root, nothing upstream of it touched) is not touched at all;
-   (3) see [C10_tick_noninterference] below (added when proved) for whole ticks.
+   (3) whole ticks: a tick of a flat level and the same tick of the level extended by a disconnected
+       part X (any number of components with wires among themselves only, any behaviour, roots of
+       the tick or not, placed anywhere in the order) give every old device the same observation,
+       leave the same state, callbacks and outputs for everything outside X.
    PARTIAL: equality of every old device's full observation sequence between a run and the run
    extended by a disconnected part (with its own callbacks, adapters, nested systems) is decided per
    pair of runs of the real schedulers (code 91) and, for adapters / EPICS records, on the real
    adapter classes; it is not a theorem over multi-tick master histories.  Property theorems only. *)
 From TV Require Import Base Gen.SourceConsts Model.Topics Model.Wiring Model.Ticker Model.Component Model.Sim
-  Proofs.TopicsP Proofs.SimP Proofs.FlattenP.
+  Proofs.TopicsP Proofs.SimP Proofs.FlattenP Proofs.NonInterfP.
 Open Scope Z_scope.
 
 Theorem C10_topics_disjoint : forall a b,
@@ -34,3 +37,31 @@ Theorem C10_outside_extent_untouched : forall devf inner lv conns time roots ext
   in_extent conns roots (ta_touched a) (fst ck) = false ->
   tick_step devf inner lv conns time roots ext a ck = a.
 Proof. intros devf. apply (tick_step_outside devf). Qed.
+
+(* [srel isX lv s s']: the two simulation states agree on every component outside X (device
+   component state, update counters, pending callbacks of scheduler lv) *)
+Theorem C10_tick_noninterference : forall cfg cfg' devf inner (isX : comp -> bool) lv time roots roots' ext s s',
+  let l := level_of cfg lv in
+  let l' := level_of cfg' lv in
+  l_order l = filter (fun ck : comp * ckind => negb (isX (fst ck))) (l_order l') ->
+  l_conns l = filter (oldc isX) (l_conns l') ->
+  (forall ck, In ck (l_order l') -> snd ck = KDev) ->
+  (forall k, In k (l_conns l') -> isX (out_comp k) = isX (in_comp k)) ->
+  isX ext_id = false -> isX exp_id = false ->
+  (forall c, isX c = false -> memb c roots' = memb c roots) ->
+  srel isX lv s s' ->
+  let '(s1, out, ob) := tick_with cfg devf inner lv time roots ext s in
+  let '(s1', out', ob') := tick_with cfg' devf inner lv time roots' ext s' in
+  srel isX lv s1 s1' /\ out' = out /\ filter (notX isX) ob' = ob.
+Proof. exact tick_noninterference. Qed.
+
+(* non-vacuity: a chain 3 -> 4 extended by the disconnected pair 7 -> 8, both 3 and 7 roots *)
+Example C10_example :
+  let dev : devfun := fun c n t inp => ([(1%positive, Zpos c + n)], None) in
+  let l := {| l_order := [(3%positive, KDev); (4%positive, KDev)]; l_conns := [(3, 1, 4, 1)%positive] |} in
+  let l' := {| l_order := [(7%positive, KDev); (3%positive, KDev); (8%positive, KDev); (4%positive, KDev)];
+               l_conns := [(7, 1, 8, 1); (3, 1, 4, 1)]%positive |} in
+  let '(_, _, ob) := tick_with [(1%positive, l)] dev (fun _ _ _ s => (s, [], None, [])) 1 5 [3%positive] [] s_init in
+  let '(_, _, ob') := tick_with [(1%positive, l')] dev (fun _ _ _ s => (s, [], None, [])) 1 5 [7%positive; 3%positive] [] s_init in
+  filter (notX (fun c => Pos.leb 7 c)) ob' = ob /\ length ob = 2%nat /\ length ob' = 4%nat.
+Proof. vm_compute. repeat split; reflexivity. Qed.
